@@ -224,8 +224,11 @@ CLAIMED = {
         "under stop it exits 1 and under ignore 0 with the tree unchanged and nothing reported. The converse for stop, for any "
         "number of files (C03Spec.lean, conflict_never_succeeds): if some file's destination exists initially and no file of "
         "the plan moves away from it, the run under stop does not end successfully, whatever the other files, the order and "
-        "the answers (history invariant on the specification renamer of C05Report, transferred through both simulations). The remaining plan-level claims (ignore leaves only conflicting "
-        "files unrenamed when the plan is NOT free, path/directory mode, override keeps the source's content in whole "
+        "the answers (history invariant on the specification renamer of C05Report, transferred through both simulations). Ignore, "
+        "for ANY plan (C03Ignore.lean): a successful run has called the renamer for every file whose generated path differs "
+        "(done_calls_all, any renamer), and each such file was renamed as planned or its destination was taken - an initial "
+        "entry or the destination of a reported rename - or its source had been renamed away (unrenamed_had_conflict); hence a "
+        "file whose destination is free is renamed (free_destination_is_renamed). The remaining plan-level claims (path/directory mode, override keeps the source's content in whole "
         "runs) are evaluated on instrumented real runs with all strategies and scripted answers, compared with the model.",
         "Trusted: Lean kernel; extraction by harness/extract.py; ASCII lower-casing; hand-written pipeline model tied by "
         "sampled correspondence; the plan-level semantics of stop/ignore outside free name-mode plans are decided by the oracle.",
